@@ -27,7 +27,7 @@ static bool quiet, probes;
 template <class IN, unsigned D> static void run(double sigma, unsigned lambda, unsigned m, const std::string& center, const std::string& ctor, unsigned long rlen, std::ostringstream& os) {
   typedef nfl::FastGaussianNoise<IN, uint32_t, D> G;
   // the object is built in storage that held other data before (0x5a pattern): a member a constructor forgets to set is then visibly indeterminate
-  G* g; void* mem = malloc(sizeof(G)); memset(mem, 0x5a, sizeof(G));
+  G* g; void* mem = malloc(sizeof(G)); memset(mem, 0x5a, sizeof(G)); asm volatile("" ::: "memory");   // (the barrier keeps the fill: -flifetime-dse may drop stores made before a constructor runs)
   if (ctor[0] == 'd') g = new (mem) G(sigma, lambda, m, atof(center.c_str()));
   else { mpfr_t c; mpfr_init2(c, atoi(ctor.c_str() + 2)); mpfr_set_str(c, center.c_str(), 10, MPFR_RNDN); g = new (mem) G(sigma, lambda, m, c); mpfr_clear(c); }
   int nb = (int)g->_number_of_barriers;
